@@ -656,7 +656,8 @@ pub fn run(ctx: &mut Ctx) {
 
     // ---- 3. window classifier, pure level
     if ctx.tier == Tier::Thorough {
-        for &mss in &WIN_MSS {
+        let more: [u16; 18] = [101, 112, 256, 512, 1000, 1220, 1360, 1400, 1412, 1414, 1448, 4096, 9000, 16384, 32768, 65476, 65494, 65496];
+        for &mss in WIN_MSS.iter().chain(more.iter()) {
             for ts in [false, true] {
                 for (ver, hdr) in [(4u8, 40u16), (6, 60)] {
                     for w in 0..=65535u16 {
